@@ -25,7 +25,29 @@ def gen_pool_case(rng, bias=None, faults=True, max_tasks=12):
         "bursts": rng.random() < 0.3,
         "bias": bias or {},
         "exit_codes": rng.choice([[0, 0, 0, 0, 1, 2, 137], [0], [0, 0, 1], [0, 1, 1]]),
+        "timeout_s": 10,
     }
+
+
+def on_timeout(case, frames, timeout_s, prop_mech="busy-loop"):
+    """A virtual-time case cannot legitimately take seconds of wall-clock: if the watchdog interrupts it
+    inside gwf's own code (not inside the harness), gwf is spinning without yielding to the event loop."""
+    from .core import Result
+
+    if case.get("lane") == "real":
+        return None
+    frames = [f for f in frames if f[1] != "_alarm"]  # drop the signal handler's own frame
+    owner = None
+    for f in reversed(frames):  # innermost frame that belongs to gwf, asyncio or the harness (skip json, re, ...)
+        if "/gwf/" in f[0] or "/asyncio/" in f[0] or "/vlib/" in f[0] or "/selectors" in f[0]:
+            owner = f
+            break
+    if owner is not None and "/gwf/" in owner[0]:
+        res = Result()
+        res.violation(prop_mech, "the pool's code ran for %ss of wall-clock time without yielding to the event loop (innermost frames: %s)" % (timeout_s, frames[-3:]))
+        res.sig = "timeout"
+        return res
+    return None
 
 
 def event_string(h, limit=60):
